@@ -82,7 +82,10 @@ func cmdCheck(args []string) int {
 	}
 	jobs := def.Quick
 	if *tier == "thorough" {
-		jobs = def.Thorough
+		jobs = append([]JobSpec(nil), def.Thorough...)
+		for i := range jobs {
+			jobs[i].SecondSolver = "z3" // z3 4.8.12 re-decides every final obligation
+		}
 	}
 	if *only != "" {
 		var f []JobSpec
@@ -389,7 +392,7 @@ func firstLine(s string) string {
 func writeEvidence(prop, tier string, seed int, def CheckDef, results []*JobResult, validated, confirmed, mismatch, inconclusive int, knownHit map[string]bool, wall float64) {
 	var states, transitions, obligations, discharged, incon int64
 	var solverMs, solverMax float64
-	var solverQ int
+	var solverQ, secondQ, disagree int
 	funcs := map[string]int{}
 	var samples []interface{}
 	var jobsum []interface{}
@@ -402,6 +405,8 @@ func writeEvidence(prop, tier string, seed int, def CheckDef, results []*JobResu
 		incon += int64(r.Inconclusive)
 		solverMs += r.SolverMs
 		solverQ += r.SolverQ
+		secondQ += r.SecondSolverQ
+		disagree += r.SolverDisagreements
 		if r.SolverMaxMs > solverMax {
 			solverMax = r.SolverMaxMs
 		}
@@ -466,6 +471,7 @@ func writeEvidence(prop, tier string, seed int, def CheckDef, results []*JobResu
 			"solver":                            map[string]interface{}{"name": "z3 5.1.0 (z3-new -in, push/pop)", "queries": solverQ, "total_ms": int(solverMs), "max_ms": int(solverMax)},
 			"jobs":                              jobsum,
 			"encoder_mismatches":                mismatch,
+			"second_solver":                     map[string]interface{}{"name": "z3 4.8.12 (thorough tier: every final obligation re-decided)", "queries": secondQ, "disagreements": disagree},
 			"known_findings_hit":                kh,
 			"package_level_stores_outside_init": gs,
 			"rule":                              "states = merged symbolic states scheduled by the SSA executor (each stands for every input satisfying its path condition); transitions = CFG edges taken; every assertion site and implicit run-time check is an obligation discharged by the SMT solver (unsat = holds for all inputs in the bound) or decided on the exact per-byte value sets of the path condition",
